@@ -121,7 +121,31 @@ def run(ctx):
                 ctx.ob("C13.axis-table", f"{fname}:{bad}", False, "invalid axis letter accepted", loc)
             except RaiseSig as r:
                 ctx.ob("C13.axis-table", f"{fname}:{bad}", r.exc.typename == "ValueError", f"raised {r.exc.typename}", loc)
-    ctx.floor("C13.pgr", 15)
+    # one grain and two grains: fewer grains than axes (a scatter matrix of rank one or two)
+    for Ns in (1, 2):
+        As = symarr(f"A{Ns}g", (Ns, 3, 3))
+        for letter, row in AXES.items():
+            tri_s = lower(scatter_ref(As, row))
+            ev_s, _ = eig_atoms(tri_s)
+            ssum = ev_s[0] + ev_s[1] + ev_s[2]
+            ref_s = ((ev_s[2] - ev_s[1]) / ssum, 2 * (ev_s[1] - ev_s[0]) / ssum, 3 * ev_s[0] / ssum)
+            tag = f"{letter}:{Ns} grain{'s' if Ns > 1 else ''}"
+            try:
+                out_s = I.call(public(ctx, I, D + "symmetry_pgr"), (As.copy(), letter))
+            except RaiseSig as r:
+                ctx.ob("C13.pgr", tag, False, f"raises {r.exc.typename}", defloc(ctx, D + "symmetry_pgr"))
+                continue
+            except Exception as ex:
+                if type(ex).__name__ not in ("Unsupported", "AlgError"):
+                    raise
+                ctx.ob("C13.pgr", tag, "inconclusive", f"outside the interpreted subset: {str(ex)[:100]}", defloc(ctx, D + "symmetry_pgr"))
+                continue
+            if not (isinstance(out_s, tuple) and len(out_s) == 3):
+                ctx.ob("C13.pgr", tag, False, f"returned {type(out_s).__name__}", defloc(ctx, D + "symmetry_pgr"))
+                continue
+            for nm, o, r in zip("PGR", out_s, ref_s):
+                ident(ctx, "C13.pgr", f"{tag}:{nm}", o, r, defloc(ctx, D + "symmetry_pgr"))
+    ctx.floor("C13.pgr", 30)
     # objectivity of the scatter matrix (through the public symmetry_pgr: compare eigen-solver arguments)
     loc = defloc(ctx, D + "symmetry_pgr")
 
